@@ -175,21 +175,21 @@ class Server:
     def signal(self, sig, pid=None):
         os.kill(pid or self.pid, sig)
 
-    def connect(self, timeout=5.0):
-        if self.port:
+    def connect(self, timeout=5.0, port=None):
+        if self.port or port:
             s = socket.socket(socket.AF_INET, socket.SOCK_STREAM)
             s.settimeout(timeout)
-            s.connect(("127.0.0.1", self.port))
+            s.connect(("127.0.0.1", port or self.port))
         else:
             s = socket.socket(socket.AF_UNIX, socket.SOCK_STREAM)
             s.settimeout(timeout)
             s.connect(self.sockpath)
         return s
 
-    def get(self, path, timeout=5.0, sock=None, keepalive=False, method="GET", body=b""):
+    def get(self, path, timeout=5.0, sock=None, keepalive=False, method="GET", body=b"", port=None):
         """-> (status, body bytes, info).  Raises OSError subclasses on connect failure."""
         own = sock is None
-        s = sock or self.connect(timeout)
+        s = sock or self.connect(timeout, port=port)
         try:
             s.settimeout(timeout)
             req = ("%s %s HTTP/1.1\r\nHost: h\r\n%s%s\r\n" % (
